@@ -10,7 +10,8 @@ theorem iter_fields (S : Shape) (c : Cfg) (trig : Trig) (st : BState) (i : In) :
     (iter S c trig st i).popped = (if i.interrupted then none else (fetch S c trig i).popped) ∧
     (iter S c trig st i).tickErr = (if i.interrupted then false else (fetch S c trig i).tickErr) ∧
     (iter S c trig st i).st =
-      (if i.interrupted then st else afterTick S c st (fetch S c trig i).retErr i.nowErr) := by
+      (if i.interrupted then afterArm S c st (iter S c trig st i).armErr i.now2
+       else afterTick S c (afterArm S c st (iter S c trig st i).armErr i.now2) (fetch S c trig i).retErr i.nowErr) := by
   unfold iter; simp only; cases i.interrupted <;> simp
 
 theorem iter_armed (S : Shape) (c : Cfg) (trig : Trig) (st : BState) (i : In) :
@@ -22,47 +23,87 @@ theorem iter_armed (S : Shape) (c : Cfg) (trig : Trig) (st : BState) (i : In) :
 
 theorem iter_armErr_eq (S : Shape) (c : Cfg) (trig : Trig) (st : BState) (i : In) :
     (iter S c trig st i).armErr =
-      (i.size.isNone || (decide (chooseArm S st i.size i.now1 = .nextTick) && decide (i.head = .err))) := by
+      ((!skipsSize S st i.now1 && i.size.isNone) ||
+        (decide (chooseArm S st i.size i.now1 = .nextTick) && decide (i.head = .err))) := by
   unfold iter; simp only; split <;> rfl
+
+theorem iter_calls_eq (S : Shape) (c : Cfg) (trig : Trig) (st : BState) (i : In) :
+    (iter S c trig st i).calls =
+      (if !skipsSize S st i.now1 then [(.size, if i.size.isSome then .ok else .err)] else []) ++
+      (if decide (chooseArm S st i.size i.now1 = .nextTick) then [(.head, i.head.outcome)] else []) ++
+      (if i.interrupted then [] else (fetch S c trig i).calls) := by
+  unfold iter; simp only; cases i.interrupted <;> simp
 
 theorem iter_interrupted (S : Shape) (c : Cfg) (trig : Trig) (st : BState) (i : In)
     (h : i.interrupted = true) :
-    (iter S c trig st i).st = st ∧ (iter S c trig st i).dispatched = none ∧
+    (iter S c trig st i).st = afterArm S c st (iter S c trig st i).armErr i.now2 ∧
+    (iter S c trig st i).dispatched = none ∧
     (iter S c trig st i).popped = none ∧ (iter S c trig st i).pushed = none ∧
     (iter S c trig st i).tickErr = false := by
   unfold iter; simp [h]
 
+theorem afterArm_noErr (S : Shape) (c : Cfg) (st : BState) (t : Int) : afterArm S c st false t = st := by
+  unfold afterArm; cases S.stateFromArm <;> cases S.backoff <;> simp
+
+theorem afterArm_err (S : Shape) (hS : WF S) (c : Cfg) (st : BState) (t : Int) :
+    afterArm S c st true t = { st with retryAt := some (t + c.R) } := by
+  simp [afterArm, hS.2.1, hS.2.2.2.2.2.2.2.2.2.2.2.2]
+
+/-- while the loop is backing off it asks the queue nothing before the `select`: no `Size()`, no `Head()` -/
+theorem iter_backoff_quiet (S : Shape) (hS : WF S) (c : Cfg) (trig : Trig) (st : BState) (i : In)
+    (hb : inBackoff S st i.now1 = true) :
+    (iter S c trig st i).armErr = false ∧ chooseArm S st i.size i.now1 = .untilRetry ∧
+    (iter S c trig st i).calls = (if i.interrupted then [] else (fetch S c trig i).calls) := by
+  have hsk : skipsSize S st i.now1 = true := by simp [skipsSize, hb, hS.2.2.2.2.2.2.2.2.2.2.2.1]
+  have hch : chooseArm S st i.size i.now1 = .untilRetry := by simp [chooseArm, hsk, hS.2.2.1]
+  refine ⟨?_, hch, ?_⟩
+  · rw [iter_armErr_eq]; simp [hsk, hch]
+  · rw [iter_calls_eq]; simp [hsk, hch]
+
+/-- outside the back-off window the iteration starts with `Size()` -/
+theorem iter_asks_size (S : Shape) (c : Cfg) (trig : Trig) (st : BState) (i : In)
+    (hb : inBackoff S st i.now1 = false) :
+    (iter S c trig st i).calls.head? = some (.size, if i.size.isSome then .ok else .err) := by
+  rw [iter_calls_eq]; simp [skipsSize, hb]
+
 /-- a failing `Size()` / `Head()` arms `RetryInterval` in the same iteration -/
 theorem iter_armErr (S : Shape) (hS : WF S) (c : Cfg) (trig : Trig) (st : BState) (i : In)
     (h : (iter S c trig st i).armErr = true) : (iter S c trig st i).armed = c.R := by
-  obtain ⟨h1, _, _, _, _, h6, -⟩ := hS
-  rw [iter_armErr_eq] at h
-  rw [iter_armed]
-  cases hs : i.size with
-  | none => simp [chooseArm, h1]
-  | some n =>
-    simp [hs] at h
-    obtain ⟨ha, hh⟩ := h
-    rw [ha]
-    simp [calcNextTick, hh, h6]
+  by_cases hb : inBackoff S st i.now1 = true
+  · rw [(iter_backoff_quiet S hS c trig st i hb).1] at h; cases h
+  · have hsk : skipsSize S st i.now1 = false := by simp [skipsSize, hb]
+    obtain ⟨h1, _, _, _, _, h6, -⟩ := hS
+    rw [iter_armErr_eq] at h
+    rw [iter_armed]
+    cases hs : i.size with
+    | none => simp [chooseArm, h1, hsk]
+    | some n =>
+      simp [hs] at h
+      obtain ⟨ha, hh⟩ := h
+      rw [ha]
+      simp [calcNextTick, hh, h6]
+
+/-- … and sets the deadline to `RetryInterval` after its clock reading -/
+theorem iter_armErr_st (S : Shape) (hS : WF S) (c : Cfg) (trig : Trig) (st : BState) (i : In)
+    (h : (iter S c trig st i).armErr = true) :
+    afterArm S c st (iter S c trig st i).armErr i.now2 = { st with retryAt := some (i.now2 + c.R) } := by
+  rw [h, afterArm_err S hS]
 
 /-- in the back-off case the timer is armed for exactly the remembered deadline -/
-theorem iter_armed_backoff (S : Shape) (hS : WF S) (c : Cfg) (trig : Trig) (st : BState) (i : In) (n : Nat) (r : Int)
-    (hsz : i.size = some n) (hr : st.retryAt = some r) (hlt : i.now1 < r) :
+theorem iter_armed_backoff (S : Shape) (hS : WF S) (c : Cfg) (trig : Trig) (st : BState) (i : In) (r : Int)
+    (hr : st.retryAt = some r) (hlt : i.now1 < r) :
     (iter S c trig st i).armed = r - i.now2 := by
-  obtain ⟨_, h2, h3, -⟩ := hS
-  rw [iter_armed]
-  simp [chooseArm, inBackoff, hsz, hr, hlt, h2, h3]
+  have hb : inBackoff S st i.now1 = true := by simp [inBackoff, hS.2.1, hr, hlt]
+  rw [iter_armed, (iter_backoff_quiet S hS c trig st i hb).2.1]
+  simp [hr]
 
 /-- outside the back-off case the deadline loop chooses what the loop without back-off state chooses -/
 theorem chooseArm_plain (S : Shape) (st : BState) (sz : Option Nat) (now1 : Int)
     (h : inBackoff S st now1 = false) : chooseArm S st sz now1 = chooseArm (plain S) {} sz now1 := by
-  cases sz with
-  | none => simp [chooseArm, plain]
-  | some n =>
-    have hp : inBackoff (plain S) {} now1 = false := by simp [inBackoff, plain]
-    simp only [chooseArm, h, hp]
-    simp [plain]
+  have hp : inBackoff (plain S) {} now1 = false := by simp [inBackoff, plain]
+  unfold chooseArm skipsSize
+  rw [h, hp]
+  cases sz <;> simp [plain]
 
 theorem calcNextTick_plain (S : Shape) (c : Cfg) (h : Res Int) (n : Int) :
     calcNextTick (plain S) c h n = calcNextTick S c h n := by
@@ -122,16 +163,48 @@ theorem iter_tickErr (S : Shape) (hS : WF S) (c : Cfg) (trig : Trig) (st : BStat
 
 /-- the deadline never moves backwards past a bound that lies at most `R` after the current time -/
 theorem iter_retryAt_ge (S : Shape) (hS : WF S) (c : Cfg) (trig : Trig) (st : BState) (i : In) (X r : Int)
-    (hr : st.retryAt = some r) (hX : X ≤ r) (hnow : X ≤ i.nowErr + c.R) :
+    (hr : st.retryAt = some r) (hX : X ≤ r) (hnow2 : X ≤ i.now2 + c.R) (hnow : X ≤ i.nowErr + c.R) :
     ∃ r', (iter S c trig st i).st.retryAt = some r' ∧ X ≤ r' := by
+  have h1 : ∃ r1, (afterArm S c st (iter S c trig st i).armErr i.now2).retryAt = some r1 ∧ X ≤ r1 := by
+    cases (iter S c trig st i).armErr
+    · rw [afterArm_noErr]; exact ⟨r, hr, hX⟩
+    · rw [afterArm_err S hS]; exact ⟨i.now2 + c.R, rfl, hnow2⟩
+  obtain ⟨r1, hr1, hX1⟩ := h1
   obtain ⟨_, h2, _, _, _, _, _, h8, -⟩ := hS
   rw [(iter_fields S c trig st i).2.2.2.2]
   cases i.interrupted
   · simp only [Bool.false_eq_true, ↓reduceIte, afterTick, h8, h2]
     cases (fetch S c trig i).retErr
-    · exact ⟨r, by simpa using hr, hX⟩
+    · exact ⟨r1, by simpa using hr1, hX1⟩
     · exact ⟨i.nowErr + c.R, by simp, hnow⟩
-  · exact ⟨r, by simpa using hr, hX⟩
+  · exact ⟨r1, by simpa using hr1, hX1⟩
+
+/-- a failing `Size()` / `Head()` leaves a deadline at least `RetryInterval` after its clock reading -/
+theorem iter_armErr_retryAt (S : Shape) (hS : WF S) (c : Cfg) (trig : Trig) (st : BState) (i : In)
+    (h : (iter S c trig st i).armErr = true) (hle : i.now2 ≤ i.nowErr) :
+    ∃ r', (iter S c trig st i).st.retryAt = some r' ∧ i.now2 + c.R ≤ r' := by
+  have h1 := iter_armErr_st S hS c trig st i h
+  obtain ⟨_, h2, _, _, _, _, _, h8, -⟩ := hS
+  rw [(iter_fields S c trig st i).2.2.2.2, h1]
+  cases i.interrupted
+  · simp only [Bool.false_eq_true, ↓reduceIte, afterTick, h8, h2]
+    cases (fetch S c trig i).retErr
+    · exact ⟨i.now2 + c.R, by simp, Int.le_refl _⟩
+    · exact ⟨i.nowErr + c.R, by simp, by omega⟩
+  · exact ⟨i.now2 + c.R, by simp, Int.le_refl _⟩
+
+/-- `fetchAndReschedule` starts with `Pop()` -/
+theorem fetch_calls_head (S : Shape) (c : Cfg) (trig : Trig) (i : In) :
+    ∃ o, (fetch S c trig i).calls.head? = some (.pop, o) := by
+  unfold fetch
+  cases i.pop with
+  | err => exact ⟨_, rfl⟩
+  | empty => cases S.popEmpty <;> exact ⟨_, rfl⟩
+  | ok e =>
+    simp only
+    cases (validate c trig e i.nowVal).2 with
+    | none => exact ⟨_, rfl⟩
+    | some t => cases i.pushOk <;> exact ⟨_, rfl⟩
 
 /-- Key timing lemma: once the deadline is at least `X` (and `X` is at most `R` after the current time), no later
     iteration ticks before `X`, whatever the inputs (faults, interrupts) are. -/
@@ -147,20 +220,96 @@ theorem no_tick_before (S : Shape) (hS : WF S) (c : Cfg) (trig : Trig) (X : Int)
     | zero =>
       simp at hj; subst hj
       have harm := w5 hnint
-      cases hs : i.size with
-      | none =>
-        have : (iter S c trig st i).armed = c.R := by
-          rw [iter_armed]; simp [chooseArm, hs, hS.1]
+      by_cases hlt : i.now1 < r
+      · rw [iter_armed_backoff S hS c trig st i r hr hlt] at harm
         omega
-      | some n =>
-        by_cases hlt : i.now1 < r
-        · rw [iter_armed_backoff S hS c trig st i n r hs hr hlt] at harm
-          omega
-        · omega
+      · omega
     | succ j =>
       simp only [List.getElem?_cons_succ] at hj
-      obtain ⟨r', hr', hXr'⟩ := iter_retryAt_ge S hS c trig st i X r hr hX (by omega)
+      obtain ⟨r', hr', hXr'⟩ := iter_retryAt_ge S hS c trig st i X r hr hX (by omega) (by omega)
       exact ih _ i.nowErr r' hr' hXr' (by omega) wrest j hj
+
+/-- … and no later iteration asks `Size()` (the call an iteration outside the back-off window starts with) before `X`:
+    until the deadline the loop asks the queue nothing at all, however many interrupts arrive -/
+theorem no_size_before (S : Shape) (hS : WF S) (c : Cfg) (trig : Trig) (X : Int) (ins : List In) (st : BState)
+    (prev r : Int) (hr : st.retryAt = some r) (hX : X ≤ r) (hprev : X ≤ prev + c.R)
+    (hwt : WellTimed S c trig st prev ins) (j : Nat) (ij : In) (oj : Out) (hj : ins[j]? = some ij)
+    (hoj : (runLoop S c trig st ins).1[j]? = some oj) (o : Outcome) (hsz : oj.calls.head? = some (.size, o)) :
+    X ≤ ij.now1 := by
+  induction ins generalizing st prev r j with
+  | nil => simp at hj
+  | cons i is ih =>
+    obtain ⟨w1, w2, w3, w4, w5, w6, w7, wrest⟩ := hwt
+    cases j with
+    | zero =>
+      simp at hj; subst hj
+      have hoj' : iter S c trig st i = oj := by simpa [runLoop] using hoj
+      subst hoj'
+      by_cases hlt : i.now1 < r
+      · have hb : inBackoff S st i.now1 = true := by simp [inBackoff, hS.2.1, hr, hlt]
+        rw [(iter_backoff_quiet S hS c trig st i hb).2.2] at hsz
+        cases hint : i.interrupted
+        · obtain ⟨o', ho'⟩ := fetch_calls_head S c trig i
+          simp [hint, ho'] at hsz
+        · simp [hint] at hsz
+      · omega
+    | succ j =>
+      simp only [List.getElem?_cons_succ] at hj
+      simp only [runLoop, List.getElem?_cons_succ] at hoj
+      obtain ⟨r', hr', hXr'⟩ := iter_retryAt_ge S hS c trig st i X r hr hX (by omega) (by omega)
+      exact ih _ i.nowErr r' hr' hXr' (by omega) wrest j hj hoj
+
+/-- the clock readings of iteration `k` of a well-timed run are in program order -/
+theorem wellTimed_at (S : Shape) (c : Cfg) (trig : Trig) (st0 : BState) (prev : Int) (ins : List In)
+    (hwt : WellTimed S c trig st0 prev ins) (k : Nat) (ik : In) (ok : Out) (hik : ins[k]? = some ik)
+    (hok : (runLoop S c trig st0 ins).1[k]? = some ok) :
+    ik.now1 ≤ ik.now2 ∧ ik.now2 ≤ ik.tArm ∧ ik.tArm ≤ ik.tickAt ∧ ik.tickAt ≤ ik.nowVal ∧ ik.nowVal ≤ ik.nowErr ∧
+    (ik.interrupted = false → ik.tArm + ok.armed ≤ ik.tickAt) := by
+  induction ins generalizing st0 prev k with
+  | nil => simp at hik
+  | cons i is ih =>
+    obtain ⟨w1, w2, w3, w4, w5, w6, w7, wrest⟩ := hwt
+    cases k with
+    | zero =>
+      have hik' : i = ik := by simpa using hik
+      have hok' : iter S c trig st0 i = ok := by simpa [runLoop] using hok
+      subst hik'; subst hok'
+      exact ⟨w2, w3, w4, w6, w7, w5⟩
+    | succ k =>
+      simp only [List.getElem?_cons_succ] at hik
+      simp only [runLoop, List.getElem?_cons_succ] at hok
+      exact ih _ _ wrest k hik hok
+
+/-- In a well-timed run: if iteration `k` leaves a deadline of at least `X` (and `X` is at most `R` after its last clock
+    reading), then no later iteration ticks, and none asks `Size()`, before `X`. -/
+theorem after_deadline (S : Shape) (hS : WF S) (c : Cfg) (trig : Trig) (st0 : BState) (prev : Int) (ins : List In)
+    (hwt : WellTimed S c trig st0 prev ins) (k : Nat) (ik : In) (ok : Out) (hik : ins[k]? = some ik)
+    (hok : (runLoop S c trig st0 ins).1[k]? = some ok) (X : Int)
+    (hX : ∃ r, ok.st.retryAt = some r ∧ X ≤ r) (hXn : X ≤ ik.nowErr + c.R)
+    (j : Nat) (ij : In) (oj : Out) (hkj : k < j) (hij : ins[j]? = some ij)
+    (hoj : (runLoop S c trig st0 ins).1[j]? = some oj) :
+    (ij.interrupted = false → X ≤ ij.tickAt) ∧ (∀ o, oj.calls.head? = some (.size, o) → X ≤ ij.now1) := by
+  induction ins generalizing st0 prev k j with
+  | nil => simp at hik
+  | cons i is ih =>
+    obtain ⟨w1, w2, w3, w4, w5, w6, w7, wrest⟩ := hwt
+    cases j with
+    | zero => omega
+    | succ j =>
+      simp only [List.getElem?_cons_succ] at hij
+      simp only [runLoop, List.getElem?_cons_succ] at hoj
+      cases k with
+      | zero =>
+        have hik' : i = ik := by simpa using hik
+        have hok' : iter S c trig st0 i = ok := by simpa [runLoop] using hok
+        subst hik'; subst hok'
+        obtain ⟨r, hr, hXr⟩ := hX
+        exact ⟨fun hni => no_tick_before S hS c trig X is _ i.nowErr r hr hXr hXn wrest j ij hij hni,
+          fun o ho => no_size_before S hS c trig X is _ i.nowErr r hr hXr hXn wrest j ij oj hij hoj o ho⟩
+      | succ k =>
+        simp only [List.getElem?_cons_succ] at hik
+        simp only [runLoop, List.getElem?_cons_succ] at hok
+        exact ih _ _ wrest k hik hok j (by omega) hij hoj
 
 /-- In a well-timed run: after a tick (iteration `k`) whose `fetchAndReschedule` returned an error, read off the clock
     at `ik.nowErr`, no later iteration ticks before `ik.nowErr + RetryInterval`. -/
@@ -381,10 +530,24 @@ theorem afterTick_plain (S : Shape) (c : Cfg) (st : BState) (b : Bool) (t : Int)
   unfold afterTick plain
   by_cases h : S.stateFromTick = true <;> simp [h]
 
+theorem inOf_faultFree (q : Queue) (p : Plan) (hp : p.faultFree = true) :
+    (inOf q p).size.isNone = false ∧ decide ((inOf q p).head = .err) = false := by
+  simp only [Plan.faultFree, Bool.and_eq_true, Bool.not_eq_eq_eq_not, Bool.not_true] at hp
+  obtain ⟨⟨⟨⟨hs, hh⟩, _⟩, _⟩, _⟩ := hp
+  refine ⟨by simp [inOf, hs], ?_⟩
+  cases q <;> simp [inOf, hh]
+
+/-- a fault-free iteration has no `Size()` / `Head()` error -/
+theorem iter_faultFree_armErr (S : Shape) (c : Cfg) (trig : Trig) (st : BState) (q : Queue) (p : Plan)
+    (hp : p.faultFree = true) : (iter S c trig st (inOf q p)).armErr = false := by
+  obtain ⟨h1, h2⟩ := inOf_faultFree q p hp
+  rw [iter_armErr_eq, h1, h2]; simp
+
 /-- a fault-free iteration leaves the back-off state alone (also a tick on an honestly empty queue) -/
 theorem iter_faultFree_st (S : Shape) (hS : WF S) (c : Cfg) (trig : Trig) (st : BState) (q : Queue) (p : Plan)
     (hp : p.faultFree = true) : (iter S c trig st (inOf q p)).st = st := by
-  rw [(iter_fields S c trig st (inOf q p)).2.2.2.2, fetch_faultFree S hS c trig q p hp, afterTick_noErr S c st _ hS]
+  rw [(iter_fields S c trig st (inOf q p)).2.2.2.2, iter_faultFree_armErr S c trig st q p hp, afterArm_noErr,
+    fetch_faultFree S hS c trig q p hp, afterTick_noErr S c st _ hS]
   simp
 
 /-- the tick part of an iteration (what is popped, dispatched, pushed) does not depend on the back-off state -/
@@ -402,20 +565,25 @@ theorem iter_tick_indep (S : Shape) (c : Cfg) (trig : Trig) (st : BState) (i : I
 theorem iter_eq_plain (S : Shape) (hS : WF S) (c : Cfg) (trig : Trig) (st : BState) (q : Queue) (p : Plan)
     (hp : p.faultFree = true) (hout : inBackoff S st p.now1 = false) :
     iter S c trig st (inOf q p) = { iter (plain S) c trig {} (inOf q p) with st := st } := by
-  have hst := iter_faultFree_st S hS c trig st q p hp
+  have hout' : inBackoff S st (inOf q p).now1 = false := by simpa [inOf] using hout
+  have hsk : skipsSize S st (inOf q p).now1 = false := by simp [skipsSize, hout']
+  have hskp : skipsSize (plain S) {} (inOf q p).now1 = false := by simp [skipsSize, inBackoff, plain]
+  obtain ⟨hz1, hz2⟩ := inOf_faultFree q p hp
   have hch : chooseArm S st (inOf q p).size (inOf q p).now1 = chooseArm (plain S) {} (inOf q p).size (inOf q p).now1 :=
-    chooseArm_plain S st _ _ (by simpa [inOf] using hout)
+    chooseArm_plain S st _ _ hout'
   have hne : chooseArm (plain S) {} (inOf q p).size (inOf q p).now1 ≠ .untilRetry := by
     obtain ⟨h1, _, _, h4, h5, -⟩ := hS
     unfold chooseArm
+    rw [hskp]
     cases (inOf q p).size with
     | none => simp [plain, h1]
     | some n => simp [plain, inBackoff, h4, h5]; split <;> simp
-  unfold iter at hst ⊢
-  simp only [hch, calcNextTick_plain, fetch_plain] at hst ⊢
+  unfold iter
+  simp only [hch, hsk, hskp, hz1, hz2, calcNextTick_plain, fetch_plain, Bool.and_false, Bool.or_false, Bool.not_false,
+    afterArm_noErr]
   cases hint : (inOf q p).interrupted
   · have hf := fetch_faultFree S hS c trig q p hp
-    simp only [hint, Bool.false_eq_true, ↓reduceIte] at hst ⊢
+    simp only [Bool.false_eq_true, ↓reduceIte]
     simp only [hf, afterTick_noErr S c st _ hS]
     congr 1
     split <;> first | rfl | (rename_i h; exact absurd h hne)
@@ -426,8 +594,10 @@ theorem iter_eq_plain (S : Shape) (hS : WF S) (c : Cfg) (trig : Trig) (st : BSta
 theorem iterQ_plain_st (S : Shape) (c : Cfg) (trig : Trig) (q : Queue) (p : Plan) :
     (iterQ (plain S) c trig ⟨{}, q⟩ p).2.st = {} := by
   simp only [iterQ]
+  have hA : ∀ b t, afterArm (plain S) c {} b t = {} := by
+    intro b t; unfold afterArm plain; cases S.stateFromArm <;> simp
   rw [(iter_fields (plain S) c trig {} (inOf q p)).2.2.2.2]
-  cases (inOf q p).interrupted <;> simp [afterTick_plain]
+  cases (inOf q p).interrupted <;> simp [afterTick_plain, hA]
 
 /-- one fault-free iteration next to the same iteration of the loop without back-off state -/
 theorem iterQ_vs_plain (S : Shape) (hS : WF S) (c : Cfg) (trig : Trig) (st : BState) (q : Queue) (p : Plan)
@@ -456,7 +626,7 @@ theorem iter_spurious (S : Shape) (hS : WF S) (c : Cfg) (trig : Trig) (st : BSta
   obtain ⟨⟨n, hn⟩, hh, hp, _⟩ := hsp
   refine ⟨?_, ?_⟩
   · rw [iter_armed]
-    simp [chooseArm, hn, hnb, hS.2.2.2.2.1, calcNextTick, hh, hS.2.2.2.2.2.2.1]
+    simp [chooseArm, skipsSize, hn, hnb, hS.2.2.2.2.1, calcNextTick, hh, hS.2.2.2.2.2.2.1]
   · rw [(iter_fields S c trig st i).1, (fetch_popEmpty_nothing S c trig i hp).1]; simp
 
 end Faults
